@@ -3,8 +3,7 @@ import Vivid.Model.Codec
 /-
 Schemas of the registered wire messages (one `Ty` per wire name), the `WriteMessage` /
 `ReadMessage` framing and the remoting envelope.  Messages whose payload is an arbitrary nested
-message (`PipeResult`, `SchedulerMessage`, `clusterSingletonForwardedMessage`), interface-typed
-(`OnKill`, `OnKilled`) or error-chained (`Error`) have no schema here: `schemaOf` returns
+message (`PipeResult`, `SchedulerMessage`, `clusterSingletonForwardedMessage`) have no schema here: `schemaOf` returns
 `none` for them and they are tied by the harness's round-trip monitor only (see `Props/C12`).
 -/
 namespace Vivid.Codec
@@ -49,7 +48,11 @@ def schemaTable (memCap : Option Nat) : List (String × Ty) := [
   ("clusterJoinRetryTick", .i64),
   ("clusterForceMemberDown", .pair str str),
   ("clusterTriggerViewBroadcast", str),
-  ("Error", .pair .i32 str)]
+  ("Error", .pair .i32 str),
+  -- an ActorRef travels as (address, path), nil as two empty strings; the receiver rebuilds it
+  -- through actor.NewRef, whose validation of the two strings is not modelled
+  ("OnKill", .pair str (.pair str (.pair str .bool))),
+  ("OnKilled", .pair str str)]
 
 def schemaOf (memCap : Option Nat) (name : String) : Option Ty := (schemaTable memCap).lookup name
 
